@@ -508,8 +508,12 @@ class Interp(object):
                 if q.status != "ok":
                     out.append(q)
                     continue
-                nv = self.binop(_opname(st.op), cur, v)
-                out.extend(self.assign(st.target, nv, q, st, aug=_opname(st.op)))
+                op = _opname(st.op)
+                nv = self.binop(op, cur, v)
+                # `x += -1` is a decrement: the recorded direction is the effective one
+                if op in ("+", "-") and isinstance(v, tuple) and v[0] == "const" and isinstance(v[1], (int, float)) and not isinstance(v[1], bool) and v[1] < 0:
+                    op = "-" if op == "+" else "+"
+                out.extend(self.assign(st.target, nv, q, st, aug=op))
         return out
 
     def assign(self, target, v, path, st, aug=None):
